@@ -22,6 +22,12 @@ type frontReq struct {
 	exists         bool
 	ctype, body    string
 	depth, ow, dst string
+	// where the handler is mounted (Handler.Prefix, spelled with or without a trailing slash) and whether the mount
+	// root is addressed without its trailing slash: NOT part of the descriptor the model sees, the answer must not
+	// depend on it
+	prefix      string
+	prefixSlash bool
+	bareRoot    bool
 }
 
 func (q frontReq) sx() string {
@@ -39,6 +45,13 @@ const frontIcal = "BEGIN:VCALENDAR\r\nVERSION:2.0\r\nPRODID:-//x//EN\r\nBEGIN:VE
 const frontVcard = "BEGIN:VCARD\r\nVERSION:4.0\r\nFN:A B\r\nEND:VCARD\r\n"
 
 func frontPath(q frontReq) string {
+	if q.level == 0 && q.bareRoot && q.prefix != "" {
+		return q.prefix
+	}
+	return q.prefix + frontRelPath(q)
+}
+
+func frontRelPath(q frontReq) string {
 	col, obj := "cal", "x.ics"
 	if q.srv == "card" {
 		col, obj = "ab", "x.vcf"
@@ -189,6 +202,13 @@ func frontHeaders(q frontReq, h http.Header) {
 	}
 }
 
+func (q frontReq) handlerPrefix() string {
+	if q.prefixSlash {
+		return q.prefix + "/"
+	}
+	return q.prefix
+}
+
 func isMutating(call string) bool {
 	for _, p := range []string{"CreateCalendar", "PutCalendarObject", "DeleteCalendarObject", "CreateAddressBook", "DeleteAddressBook", "PutAddressObject", "DeleteAddressObject"} {
 		if strings.HasPrefix(call, p) {
@@ -207,18 +227,20 @@ func runFront(q frontReq, body string) string {
 		mutated := false
 		switch q.srv {
 		case "cal":
-			b := &calBackend{principal: "/u/", homeSet: "/u/cal/",
-				calendars: []caldav.Calendar{{Path: "/u/cal/a/", Name: "A"}},
-				objects:   map[string][]caldav.CalendarObject{"/u/cal/a/": {{Path: "/u/cal/a/x.ics", ETag: "e1", Data: simpleCal("u1", "s")}}}}
-			(&caldav.Handler{Backend: b}).ServeHTTP(rec, req)
+			px := q.prefix
+			b := &calBackend{principal: px + "/u/", homeSet: px + "/u/cal/",
+				calendars: []caldav.Calendar{{Path: px + "/u/cal/a/", Name: "A"}},
+				objects:   map[string][]caldav.CalendarObject{px + "/u/cal/a/": {{Path: px + "/u/cal/a/x.ics", ETag: "e1", Data: simpleCal("u1", "s")}}}}
+			(&caldav.Handler{Backend: b, Prefix: q.handlerPrefix()}).ServeHTTP(rec, req)
 			for _, c := range b.log.take() {
 				mutated = mutated || isMutating(c)
 			}
 		case "card":
-			b := &cardBackend{principal: "/u/", homeSet: "/u/ab/",
-				books:   []carddav.AddressBook{{Path: "/u/ab/a/", Name: "A"}},
-				objects: map[string][]carddav.AddressObject{"/u/ab/a/": {{Path: "/u/ab/a/x.vcf", ETag: "e1", Card: simpleCard("A B")}}}}
-			(&carddav.Handler{Backend: b}).ServeHTTP(rec, req)
+			px := q.prefix
+			b := &cardBackend{principal: px + "/u/", homeSet: px + "/u/ab/",
+				books:   []carddav.AddressBook{{Path: px + "/u/ab/a/", Name: "A"}},
+				objects: map[string][]carddav.AddressObject{px + "/u/ab/a/": {{Path: px + "/u/ab/a/x.vcf", ETag: "e1", Card: simpleCard("A B")}}}}
+			(&carddav.Handler{Backend: b, Prefix: q.handlerPrefix()}).ServeHTTP(rec, req)
 			for _, c := range b.log.take() {
 				mutated = mutated || isMutating(c)
 			}
@@ -260,6 +282,31 @@ func famSrvFront(o *Out, r *RNG, thorough bool) {
 					for _, ct := range frontCtypes {
 						for _, bd := range frontBodies {
 							emitFront(o, r, frontReq{srv: srv, method: m, level: lvl, exists: ex, ctype: ct, body: bd, depth: "absent", ow: "absent", dst: "absent"})
+						}
+					}
+				}
+			}
+		}
+		// the same table wherever the handler is mounted: prefixes of one to four segments in both spellings, the mount
+		// root with and without its trailing slash
+		if srv != "prin" {
+			for _, px := range []string{"/p", "/p/q", "/a/b/c", "/a/b/c/d"} {
+				for _, slash := range []bool{false, true} {
+					for _, m := range frontMethods {
+						for lvl := 0; lvl <= 5; lvl++ {
+							for _, ex := range []bool{true, false} {
+								if !ex && lvl != 3 && lvl != 4 {
+									continue
+								}
+								for _, cb := range [][2]string{{"none", "empty"}, {"xml", "valid"}, {"obj", "objok"}} {
+									q := frontReq{srv: srv, method: m, level: lvl, exists: ex, ctype: cb[0], body: cb[1], depth: "absent", ow: "absent", dst: "absent", prefix: px, prefixSlash: slash}
+									emitFront(o, r, q)
+									if lvl == 0 {
+										q.bareRoot = true
+										emitFront(o, r, q)
+									}
+								}
+							}
 						}
 					}
 				}
